@@ -10,8 +10,8 @@ from ansi_string import AnsiString, AnsiStr, AnsiFormat, AnsiSetting
 
 LEVEL = 'model_checking'
 
-TEXTS = ('a b', 'Ab\tc', '')
-SETS = ('red', ['bold', '[38;5;9'])
+TEXTS = ('a b', 'Ab\tc', '', 'a\xdf')
+SETS = ('red', ['bold', '[38;5;9'], ['red', 'blue', '[99'], 'bold')
 ARGS = ('', 'a', 'b', ' ', 'ab')
 
 
@@ -419,7 +419,7 @@ def h_ctor(src: int, ti: int, si: int, ri: int, k: int):
 
 
 BOUNDS = {
-    'quick': 'receivers: 3 texts x 2 settings lists on 4 ranges (first char, whole, last char, inner); range methods with ALL integer bounds / None; index methods with ALL integers; '
+    'quick': 'receivers: 4 texts x 4 settings lists (incl. stacked conflicting + unknown verbatim) on 4 ranges (first char, whole, last char, inner); range methods with ALL integer bounds / None; index methods with ALL integers; '
              'all other shared methods (by introspection) with arguments from a 5-string palette and integers -1..3; constructor: 3 source kinds x 4 settings lists',
     'thorough': 'same (the product is exhausted in quick); thorough adds nothing but the larger budgets',
 }
@@ -432,7 +432,7 @@ def obligations(tier):
     obs = [selftest_ob()]
     obs.append(Ob('introspect', h_introspect, {}, need=('all-shared-methods-covered',), budget=60, bounds='dir(AnsiStr) & dir(AnsiString)', kinds=KINDS))
     for m in range(5):
-        for ti in (0, 1, 2):
+        for ti in (0, 1, 2, 3):
             f = dict(m=m, ti=ti)
             if ti == 2:
                 f.update(si=0, ri=0)
